@@ -69,6 +69,10 @@ type Backend struct {
 	Gate func(step string)
 	// LogoutErr is returned by Logout.
 	LogoutErr error
+	// ByContent: the message itself says what to do with it (first line
+	// "reject…", "early…", "panic…", anything else: accept); used by the
+	// history explorers, whose backend must be stateless.
+	ByContent bool
 	// Probe, if set, is called inside NewSession with the Conn.
 	Probe func(c *smtp.Conn)
 }
@@ -104,6 +108,8 @@ func decide(addr string) error {
 		local = addr[:i]
 	}
 	switch {
+	case strings.HasPrefix(local, "rejml"):
+		return &smtp.SMTPError{Code: 550, EnhancedCode: smtp.EnhancedCode{5, 1, 1}, Message: "rejected " + addr + "\nsecond line of the refusal"}
 	case strings.HasPrefix(local, "rej"):
 		return RejErr(addr)
 	case strings.HasPrefix(local, "tmp"):
@@ -123,7 +129,7 @@ func (b *Backend) NewSession(c *smtp.Conn) (smtp.Session, error) {
 	if strings.HasPrefix(c.Hostname(), "fail") {
 		e.Ret = "error"
 		b.add(e)
-		return nil, &smtp.SMTPError{Code: 421, EnhancedCode: smtp.EnhancedCode{4, 3, 2}, Message: "no session for " + c.Hostname()}
+		return nil, &smtp.SMTPError{Code: 554, EnhancedCode: smtp.EnhancedCode{5, 3, 2}, Message: "no session for " + c.Hostname()}
 	}
 	if strings.HasPrefix(c.Hostname(), "tmpfail") {
 		e.Ret = "error"
@@ -255,6 +261,9 @@ func (s *sess) consume(kind string, r io.Reader, status smtp.StatusCollector) (e
 		}
 	}
 	setStatus(false)
+	if b.ByContent {
+		return s.byContent(e, r, idx)
+	}
 	bufSize := plan.Buf
 	if bufSize <= 0 {
 		bufSize = 4096
@@ -298,6 +307,52 @@ func (s *sess) consume(kind string, r io.Reader, status smtp.StatusCollector) (e
 		return rerr
 	}
 	return plan.Verdict
+}
+
+// byContent reads the first line octet by octet, then does what it says.
+func (s *sess) byContent(e *Event, r io.Reader, idx int) error {
+	b := s.b
+	var body []byte
+	var rerr error
+	one := make([]byte, 1)
+	for rerr == nil && (len(body) == 0 || body[len(body)-1] != '\n') {
+		var n int
+		n, rerr = r.Read(one)
+		body = append(body, one[:n]...)
+	}
+	line := strings.TrimRight(string(body), "\r\n")
+	early := strings.HasPrefix(line, "early")
+	if !early {
+		buf := make([]byte, 4096)
+		for rerr == nil {
+			var n int
+			n, rerr = r.Read(buf)
+			body = append(body, buf[:n]...)
+		}
+	}
+	b.mu.Lock()
+	e.Body = body
+	switch {
+	case rerr == io.EOF:
+		e.ReadErr = "EOF"
+	case rerr != nil:
+		e.ReadErr = rerr.Error()
+	default:
+		e.ReadErr = "stopped"
+	}
+	b.mu.Unlock()
+	if rerr != nil && rerr != io.EOF {
+		return rerr
+	}
+	switch {
+	case early:
+		return &smtp.SMTPError{Code: 554, EnhancedCode: smtp.EnhancedCode{5, 6, 1}, Message: "early failure " + line}
+	case strings.HasPrefix(line, "reject"):
+		return &smtp.SMTPError{Code: 554, EnhancedCode: smtp.EnhancedCode{5, 6, 0}, Message: "rejected message " + line}
+	case strings.HasPrefix(line, "panic"):
+		panic("backend panic for message " + line)
+	}
+	return nil
 }
 
 func (s *sess) Data(r io.Reader) error { return s.consume("Data", r, nil) }
